@@ -97,8 +97,43 @@ UNIT_SUITE = {"utils": "utils", "qvector": "qvector", "qwt": "qwt", "bitvector":
 SUITE_PROPS = {"utils": ["C17"], "qvector": ["C13", "C10", "C12", "C04"], "qwt": ["C01", "C09", "C10", "C12", "C04"],
                "bitvector": ["C08", "C10", "C12", "C04"], "wt": ["C03", "C10", "C12", "C04"], "rsq": ["C05", "C10", "C04"],
                "rsbin": ["C06", "C10", "C04"], "darray": ["C07", "C10", "C04"]}
-SUITE_FILE = {"utils": "src/utils/mod.rs", "qvector": "src/qvector/mod.rs", "qwt": "src/quadwt/mod.rs", "bitvector": "src/bitvector/mod.rs",
+SUITE_FILE = {"hqwt": "src/quadwt/huffqwt.rs", "utils": "src/utils/mod.rs", "qvector": "src/qvector/mod.rs", "qwt": "src/quadwt/mod.rs", "bitvector": "src/bitvector/mod.rs",
               "wt": "src/binwt/mod.rs", "rsq": "src/qvector/rs_qvector.rs", "rsbin": "src/bitvector/rs_wide.rs", "darray": "src/darray/mod.rs"}
+
+
+# bounded differential exploration run with every check (labelled bounded): which suites of /verif/replay speak about a property
+PROP_SUITES = {"C01": ["qwt"], "C03": ["wt"], "C04": ["utils", "qvector", "bitvector", "qwt", "wt", "hqwt", "rsq", "rsbin", "darray"],
+               "C05": ["rsq"], "C06": ["rsbin"], "C07": ["darray"], "C08": ["bitvector"], "C09": ["qwt", "hqwt"],
+               "C10": ["qvector", "bitvector", "qwt", "wt", "hqwt", "rsq", "rsbin", "darray"], "C12": ["qvector", "bitvector", "qwt", "wt", "hqwt"],
+               "C13": ["qvector"], "C17": ["utils"], "C19": ["bitvector", "qwt", "wt", "hqwt", "rsq", "rsbin", "darray"]}
+DIFF_SECONDS = {"quick": 6, "thorough": 45}
+
+
+def differential_obligations(prop, tier, seed):
+    import replay_search
+    suites = PROP_SUITES.get(prop, [])
+    out = []
+    if not suites:
+        return out
+    secs = int(os.environ.get("VERIF_DIFF_SECONDS", DIFF_SECONDS[tier]))
+    with cf.ThreadPoolExecutor(max_workers=len(suites)) as ex:
+        futs = {su: ex.submit(replay_search.run_suite, su, secs, seed) for su in suites}
+        for su in suites:
+            try:
+                r = futs[su].result()
+            except Exception as e:  # noqa: BLE001
+                r = {"suite": su, "built": False, "found": False, "note": "differential run unavailable: %s" % e}
+            o = {"id": "bounded:differential:%s" % su, "engine": "differential replay of the real crate", "kind": "bounded",
+                 "bound": "%d s of small / random inputs against a naive oracle, seed %d (public API incl. the functions outside the verified set)" % (secs, seed),
+                 "ok": not r.get("found"), "function": "suite %s" % su, "file": SUITE_FILE.get(su, "src/"), "skipped": not r.get("built", True)}
+            if r.get("found"):
+                o["failures"] = [{"msg": "%s: %s observed %s, expected %s" % (r.get("structure"), r.get("call"), r.get("observed"), r.get("expected")),
+                                  "source": str(r.get("input", ""))[:300]}]
+                r["input_found"] = True
+                r["how"] = "differential run of the real crate (cargo build --release, overflow checks and debug assertions on) against a naive oracle"
+                o["witness"] = r
+            out.append(o)
+    return out
 
 
 def load_known():
@@ -214,6 +249,8 @@ def main():
             trusted.add("kani: " + t)
         for so in static_checks.for_property(prop):
             obligations.append(so)
+        for do in differential_obligations(prop, tier, seed):
+            obligations.append(do)
         if kres.get("cmd"):
             cmds.append(kres["cmd"])
     except vx.Inconclusive as e:
@@ -287,7 +324,10 @@ def main():
                    "counterexample": o.get("counterexample"), "replayed": None}
             suffix = ""
             wit = None
-            if o.get("counterexample"):
+            if o.get("witness"):
+                wit = o["witness"]
+                rec["replayed"] = wit
+            elif o.get("counterexample"):
                 wit = kx.replay_counterexample(o, scratch_root="/dev/shm")
                 rec["replayed"] = wit
             else:
@@ -306,6 +346,8 @@ def main():
         suite = UNIT_SUITE.get(tmpl)
         if not suite or prop not in SUITE_PROPS.get(suite, []) or any(x[0] == suite for x in fallback):
             continue
+        if any(o["id"] == "bounded:differential:" + suite and not o["ok"] for o in obligations):
+            continue   # that suite already reported an input as an obligation of this check
         try:
             import replay_search
             wit = replay_search.search(prop, {"id": "suite:" + suite, "file": SUITE_FILE[suite], "function": ""})
